@@ -2,9 +2,9 @@ package gosym
 
 import (
 	"fmt"
-	"os"
 	"go/token"
 	"go/types"
+	"os"
 	"strings"
 	"sync"
 
@@ -964,6 +964,11 @@ func (st *State) nextIter(itv Value, in *ssa.Next) Value {
 			return Tuple{True, ConstInt(64, int64(idx)), ConstInt(32, int64(r))}
 		}
 		b := it.s.(*SymStr).B[it.pos]
+		if b.IsConst() && b.C >= 0x80 {
+			r, w := decodeRune(constPrefix(it.s.(*SymStr).B[it.pos:], 4))
+			it.pos += w
+			return Tuple{True, ConstInt(64, int64(idx)), ConstInt(32, int64(r))}
+		}
 		st.requireASCII(b)
 		it.pos++
 		return Tuple{True, ConstInt(64, int64(idx)), Resize(b, 32, false)}
